@@ -1052,6 +1052,7 @@ func c12instExhaustive(j *c12jobs, all bool) {
 									ops = append(ops, uf)
 								}
 							}
+							base := append([]string(nil), ops...)
 							ops = append(ops, "u")
 							if queue {
 								ops = append(ops, "q")
@@ -1062,6 +1063,19 @@ func c12instExhaustive(j *c12jobs, all bool) {
 								ops = append(ops, "q")
 							}
 							c12instCase(j, queue, n, c05patterns[n][:4], ops)
+							// the retry is not an empty update but the next event: a change of another backend that
+							// runtime commands can express (address of backend 1), then an empty update
+							if !first && k != "back-del" && k != "back-2addr" && k != "full-same" && k != "full-change" && k != "all" {
+								ops = append(base, "r1", "a1.5.0", "u")
+								if queue {
+									ops = append(ops, "q")
+								}
+								ops = append(ops, "u")
+								if queue {
+									ops = append(ops, "q")
+								}
+								c12instCase(j, queue, n, c05patterns[n][:4], ops)
+							}
 						}
 					}
 				}
